@@ -55,7 +55,17 @@ def to_native(kind, v):
         return int(v)
     if isinstance(kind, kinds.KBool):
         return bool(v)
+    if isinstance(kind, kinds.KObj) and isinstance(v, (list, tuple)) and (len(v) == 0 or isinstance(v[0], (list, tuple))):
+        return np.array(v, dtype=float).reshape((-1, 2))        # an opaque interval array
     return v
+
+
+def opaque(x):
+    """contract-side value of an opaque (ObjT) argument: interval arrays become tuples of pairs"""
+    import numpy as np
+    if isinstance(x, np.ndarray):
+        return tuple(tuple(float(y) for y in row) for row in x.tolist())
+    return x
 
 
 def lift(x, st):
@@ -164,7 +174,7 @@ def _replay_function(qual, inputs, registry=None):
         failed.append('frame: argument %s was modified by the call' % k)
     # evaluate the contract concretely on the ORIGINAL arguments
     st = St()
-    env = {p: lift(before[p], st) for p in before}
+    env = {p: (opaque(before[p]) if isinstance(c.param_kinds.get(p), kinds.KObj) else lift(before[p], st)) for p in before}
     mod, fd = frontend.function(c.target)
     dflt = frontend.defaults(fd)
     import ast
